@@ -124,6 +124,8 @@ def run(chk, replay=None):
                             "a panic or error while parsing or checking a tampered blob counts as 'not accepted' (totality is C07)",
                             "credentials are built as NewKeyCredential builds them (usage NGC, source AD); other usages/sources, foreign encodings, CustomKeyInformation values and field assignment after construction are judged as drift",
                             "histories: alphabet of 10 calls on one object, two credentials with 16-byte moduli"]
+        # ---- the same entry points called by 8 goroutines at once (race-detector build): results as when called alone
+        vlib.parallel_callers(chk, "keycred")
     finally:
         shutil.rmtree(d, ignore_errors=True)
 
